@@ -58,11 +58,30 @@ impl Net {
     /// `ip_mtu` is the IP MTU; on Ethernet the device MTU is 14 bytes larger (smoltcp's
     /// `max_transmission_unit` includes the Ethernet header).
     pub fn new(eth: bool, ip_mtu: usize) -> Result<Net, String> {
+        Net::new_id(eth, ip_mtu, None)
+    }
+    /// Like `new`, but the interface's IPv4 identification counter starts at `id_start`
+    /// (Config::random_seed is chosen by inverting smoltcp's PCG32; the result is verified
+    /// through the verif_digest hook and the next salt is tried when an earlier draw was zero).
+    pub fn new_id(eth: bool, ip_mtu: usize, id_start: Option<u16>) -> Result<Net, String> {
+        let Some(want) = id_start else { return Net::new_seed(eth, ip_mtu, 0x5eed_c12) };
+        for salt in 0..64u64 {
+            // rand_u16 = (n ^ (n >> 16)) as u16; with n < 0x10000 that is n itself; ipv4_id is the
+            // third draw of Interface::new (802.15.4 sequence number, 6LoWPAN tag, ipv4_id)
+            let seed = crate::sim::seed_for_nth_output(want as u32, 3, salt);
+            let net = Net::new_seed(eth, ip_mtu, seed)?;
+            if net.iface.verif_digest().contains(&format!(" ipv4_id={} ", want)) {
+                return Ok(net);
+            }
+        }
+        Err(format!("could not find a seed that starts the IPv4 identification counter at {}", want))
+    }
+    fn new_seed(eth: bool, ip_mtu: usize, seed: u64) -> Result<Net, String> {
         let medium = if eth { Medium::Ethernet } else { Medium::Ip };
         let mut dev = SimDevice::new(medium, if eth { ip_mtu + 14 } else { ip_mtu });
         let hw = if eth { HardwareAddress::Ethernet(EthernetAddress(OUR_MAC)) } else { HardwareAddress::Ip };
         let mut cfg = Config::new(hw);
-        cfg.random_seed = 0x5eed_c12;
+        cfg.random_seed = seed;
         let mut iface = Interface::new(cfg, &mut dev, now());
         iface.update_ip_addrs(|a| {
             a.push(IpCidr::new(IpAddress::v4(OUR_IP[0], OUR_IP[1], OUR_IP[2], OUR_IP[3]), 24)).unwrap();
@@ -176,11 +195,12 @@ pub fn run(tier: Tier) -> i32 {
     rep.assumptions.push("device checksum capabilities = default (everything computed/verified in software)".into());
     tx::run_s1(&mut rep, tier);
     tx::run_s1b(&mut rep, tier);
+    tx::run_s1c(&mut rep, tier);
     bfs::run_s2(&mut rep, tier);
     rx::run_rx(&mut rep, tier);
     rep.cov(
         "rule",
-        json!("tx/S1: every (medium, MTU, UDP payload length) listed in s1.domain, one datagram each on a fresh interface; tx/S1b: every ordered pair of (kind,len) listed in s1b.domain; tx/S2: BFS over event sequences (alphabet in s2.alphabet) up to the stated depth with state merging on verif_digest+sockets+device+model; rx: every permutation of every fragment set listed in rx.domain (plus one-duplicate multiset permutations, overlapping retransmission mixes, two interleaved datagrams, two same-key datagrams for different destinations, a partially received datagram that expires before another one arrives). 'states' = distinct inputs (sweeps) + distinct BFS states; 'transitions' = executions on the real stack (cases / BFS transitions)"),
+        json!("tx/S1: every (medium, MTU, UDP payload length) listed in s1.domain, one datagram each on a fresh interface; tx/S1b: every ordered pair of (kind,len) listed in s1b.domain; tx/S1c: every ordered triple of (kind,len) listed in s1c.domain for every listed start value of the identification counter; tx/S2: BFS over event sequences (alphabet in s2.alphabet) up to the stated depth with state merging on verif_digest+sockets+device+model; rx: every permutation of every fragment set listed in rx.domain (plus one-duplicate multiset permutations, overlapping retransmission mixes, two interleaved datagrams, two same-key datagrams for different destinations, a partially received datagram that expires before another one arrives). 'states' = distinct inputs (sweeps) + distinct BFS states; 'transitions' = executions on the real stack (cases / BFS transitions)"),
     );
     rep.finish()
 }
@@ -191,7 +211,7 @@ pub fn replay(art: &Value) -> i32 {
         return bfs::replay(h, art);
     }
     match r["part"].as_str() {
-        Some("s1") | Some("s1b") => tx::replay(r),
+        Some("s1") | Some("s1b") | Some("s1c") => tx::replay(r),
         Some("rx") => rx::replay(r),
         _ => {
             eprintln!("MACHINERY ERROR: artefact has no known part/harness");
